@@ -194,6 +194,9 @@ def judgeStream (st : St) (obs : List String) : Verdict := Id.run do
   if (recorded.zip (recorded.drop 1)).any (fun pq => pq.1.time > pq.2.time) then brs := addBr brs "time-backwards"
   if recorded.any (fun p => endsCR p.db || endsCR p.rp) then brs := addBr brs "cr-dropped"
   if recorded.any (fun p => (lineOf F mult p).length ≥ maxTok) then brs := addBr brs "line-too-long"
+  if recorded.any (fun p => (lineOf F mult p).length ≥ maxTokOld) then brs := addBr brs "line-beyond-64KiB"
+  if recorded.any (fun p => (lineOf F mult p).length + 1 == maxTokOld) then brs := addBr brs "line-64KiB-minus-1"
+  if recorded.any (fun p => p.db.length ≥ maxTokOld) then brs := addBr brs "db-beyond-64KiB"
   if recorded.any (·.hashName) then brs := addBr brs "comment-line"
   match known with
   | some key =>
